@@ -214,27 +214,26 @@ Example C17_parse_size_in_range_nonvacuous :
   accept_size (bs "-5"%string) = None /\ accept_size (bs "9223372036854775807"%string) = Some max_int64.
 Proof. repeat split; vm_compute; reflexivity. Qed.
 
-(* "the parsed value is number*unit exactly, or an error" is FALSE: the product is an int64
-   product and a wrapped value that happens to be >= 1 is accepted *)
-Theorem C17_parse_size_exact_refuted :
-  exists s n u v, denote s = Some (n, u) /\ accept_size s = Some v /\ v <> n * u.
-Proof. exact parse_size_exact_refuted. Qed.
-Print Assumptions C17_parse_size_exact_refuted.
-
-(* strongest true statement: an accepted string denotes sign/digits/unit with the number in
-   int64 range, the value is the WRAPPED product, and it is the exact product whenever that
-   product fits int64 *)
-Theorem C17_parse_size_exact_partial :
+(* the parsed value is number*unit EXACTLY (unbounded integers), or an error: an accepted string
+   denotes sign/digits/unit, its number is non-negative, and the configured value is the true product,
+   which lies within 1..2^63-1 (parseSize forms the int64 product only when it fits: b9c6637) *)
+Theorem C17_parse_size_exact :
   forall s v, accept_size s = Some v ->
-  exists n u, denote s = Some (n, u) /\ - two63 <= n < two63 /\ 1 <= u <= 1073741824 /\
-    v = wrap64 (n * u) /\ 1 <= v <= max_int64 /\
-    (- two63 <= n * u < two63 -> v = n * u /\ 1 <= n * u).
-Proof. exact accept_size_denotes. Qed.
-Print Assumptions C17_parse_size_exact_partial.
+  exists n u, denote s = Some (n, u) /\ v = n * u /\ 1 <= v <= max_int64 /\
+    0 <= n < two63 /\ 1 <= u <= 1073741824.
+Proof. exact accept_size_exact. Qed.
+Print Assumptions C17_parse_size_exact.
+
+Example C17_parse_size_exact_nonvacuous :
+  accept_size (bs "8589934591GB"%string) = Some 9223372035781033984 /\
+  accept_size (bs "8589934592GB"%string) = None /\
+  accept_size (bs "18014398509481985KB"%string) = None /\
+  accept_size (bs "-17179869181GB"%string) = None.
+Proof. repeat split; vm_compute; reflexivity. Qed.
 
 (* conversely every string that denotes a product within 1..2^63-1 is accepted with exactly that
-   value, and a rejected string denotes nothing or a product outside that range: so accepted
-   values are exact EXCEPT for overflowing products (the refuted case above) *)
+   value, and a rejected string denotes nothing or a product outside that range: together with
+   C17_parse_size_exact, a size is accepted IFF it denotes a product within 1..2^63-1 *)
 Theorem C17_parse_size_complete :
   forall s n u, denote s = Some (n, u) -> 1 <= n * u <= max_int64 -> accept_size s = Some (n * u).
 Proof. exact accept_size_complete. Qed.
